@@ -482,8 +482,12 @@ def subs_world(args, scratch):
     rows = args['rows']
     with open(scratch + '/user/subs.txt', 'w') as f:
         csv.writer(f, delimiter=';').writerows(rows)
-    prog = [['load_subs', dict(key='k', fname='user/subs.txt', max_param=int(args['max_param']),
-                               use_sympy=bool(args['use_sympy']), bcast_res=bool(args['bcast_res']))]]
+    prog = []
+    for ci, (us, bc) in enumerate(args.get('pre_calls') or []):
+        # earlier calls in the same processes with other flags (generation reads with use_sympy=False, matching with True)
+        prog.append(['load_subs', dict(key='pre%d' % ci, fname='user/subs.txt', max_param=int(args['max_param']), use_sympy=bool(us), bcast_res=bool(bc))])
+    prog.append(['load_subs', dict(key='k', fname='user/subs.txt', max_param=int(args['max_param']),
+                                   use_sympy=bool(args['use_sympy']), bcast_res=bool(args['bcast_res']))])
     chains = args.get('chains') or []
     if chains:
         prog.append(['simp_inv', dict(key='c', chains=chains, max_param=int(args['max_param']))])
@@ -492,8 +496,18 @@ def subs_world(args, scratch):
     probs = []
     stats = dict(rows=len(rows), steps=sum(len(r) for r in rows), chains=len(chains))
     if res['violation'] is None and res['diverged'] is None:
+        for ci, (us, bc) in enumerate(args.get('pre_calls') or []):
+            lp = [rk['out'].get('load_subs', {}).get('pre%d' % ci) for rk in res['ranks']]
+            for r, l in enumerate(lp):
+                if bc or r == 0:
+                    for p in subs_model.check_loaded(rows, l):
+                        probs.append((p[0], 'pre-call%d-rank%d' % (ci, r)) + tuple(p[1:]))
+                if probs:
+                    break
         loaded = [rk['out'].get('load_subs', {}).get('k') for rk in res['ranks']]
         for r, l in enumerate(loaded):
+            if probs:
+                break
             if not args['bcast_res'] and r != 0:
                 if l is not None:
                     probs.append(('non-root-got-result', r))
